@@ -11,6 +11,7 @@ TInit == /\ tid \in 1..Len(Traces) /\ l = 1
          /\ stack = <<Traces[tid].init>> /\ saved = <<>> /\ nev = 0 /\ last = <<"init">>
 Act == CASE E.k = "enter" -> Enter(E.d)
          [] E.k \in {"exitN", "exitE"} -> Exit(E.k)
+         [] E.k = "close" -> Close
          [] OTHER -> Call(E.k)
 TNext == l <= Len(T.ev) /\ Act /\ l' = l + 1 /\ tid' = tid
 TSpec == TInit /\ [][TNext]_<<vars, tid, l>>
